@@ -162,6 +162,21 @@ Fixpoint mc_v6_keys (l : gtable) : list Z :=
   | (V4 _, _) :: t => mc_v6_keys t
   end.
 
+(* the same, skipping groups in state Leaving (the general-query responses, since the repair that
+   stopped reports for groups being left) *)
+Fixpoint mc_v4_member_keys (l : gtable) : list Z :=
+  match l with
+  | [] => []
+  | (V4 a, s) :: t => if gstate_eqb s GLeaving then mc_v4_member_keys t else a :: mc_v4_member_keys t
+  | (V6 _, _) :: t => mc_v4_member_keys t
+  end.
+Fixpoint mc_v6_member_keys (l : gtable) : list Z :=
+  match l with
+  | [] => []
+  | (V6 a, s) :: t => if gstate_eqb s GLeaving then mc_v6_member_keys t else a :: mc_v6_member_keys t
+  | (V4 _, _) :: t => mc_v6_member_keys t
+  end.
+
 (* groups.iter().find(|(_, &state)| state == s) *)
 Fixpoint mc_find_state (s : gstate) (l : gtable) : option ipaddr :=
   match l with
@@ -417,6 +432,8 @@ Definition mc_egress_igmp (st : mstate) (dev : list bool) (now : Z) (acc : list 
   match mc_igmp st with
   | IgSpecific ver timeout group =>
       if now >=? timeout then
+        if negb (mc_has_multicast_group st (V4 group)) then Ok (mc_set_igmp st IgInactive, dev, acc)
+        else
         match mc_igmp_report_packet st ver group CSpecific with
         | Some p =>
             let '(tok, dev') := mc_transmit dev in
@@ -427,7 +444,7 @@ Definition mc_egress_igmp (st : mstate) (dev : list bool) (now : Z) (acc : list 
       else Ok (st, dev, acc)
   | IgGeneral ver timeout interval next_index =>
       if now >=? timeout then
-        match nth_error (mc_v4_keys (mc_groups st)) (Z.to_nat next_index) with
+        match nth_error (mc_v4_member_keys (mc_groups st)) (Z.to_nat next_index) with
         | Some addr =>
             match mc_igmp_report_packet st ver addr CGeneral with
             | Some p =>
@@ -451,7 +468,7 @@ Definition mc_egress_mld (st : mstate) (dev : list bool) (now : Z) (acc : list m
   match mc_mld st with
   | MlGeneral timeout =>
       if now >=? timeout then
-        let records := map (fun a => (RModeIsExclude, a)) (mc_v6_keys (mc_groups st)) in
+        let records := map (fun a => (RModeIsExclude, a)) (mc_v6_member_keys (mc_groups st)) in
         match mc_mldv2_report_packet st records CGeneral with
         | Some p =>
             let '(tok, dev') := mc_transmit dev in
@@ -462,6 +479,8 @@ Definition mc_egress_mld (st : mstate) (dev : list bool) (now : Z) (acc : list m
       else Ok (st, dev, acc)
   | MlSpecific group timeout =>
       if now >=? timeout then
+        if negb (mc_has_multicast_group st (V6 group)) then Ok (mc_set_mld st MlInactive, dev, acc)
+        else
         match mc_mldv2_report_packet st [(RModeIsExclude, group)] CSpecific with
         | Some p =>
             let '(tok, dev') := mc_transmit dev in
